@@ -1803,6 +1803,7 @@ func (n *node) spawnMember(factory gen.ProcessFactory, options gen.ProcessOption
 }
 
 func (n *node) unregisterProcess(p *process, reason error) {
+	defer lib.VerifPoint("unreg.done", &p.pid)
 	lib.VerifPoint("unreg.delete", p)
 	n.processes.Delete(p.pid)
 	if p.registered.Load() {
@@ -1984,7 +1985,9 @@ func (n *node) eventConsumerGone(consumer gen.PID, target gen.Event, monitor boo
 		if err != nil {
 			return
 		}
+		lib.VerifPoint("remote.gone.spawn", target)
 		go func() {
+			defer lib.VerifPoint("remote.gone.exit", target)
 			if monitor {
 				connection.DemonitorEvent(consumer, target)
 				return
